@@ -98,9 +98,22 @@ def case_chordal(ctx, rng, idx):
     real = bool(idx % 2)
     kind = SVK[(idx // 2) % len(SVK)]
     A, ka = num.controlled_matrix(rng, m, k, 1e3, real, kind, 10.0 ** rng.uniform(-2, 2))
-    mode = ["generic", "same-basis-change", "close", "orthogonal"][(idx // 8) % 4]
-    if mode == "generic":
+    mode = ["generic", "same-basis-change", "close", "orthogonal", "different-dims",
+            "unit-columns"][(idx // 8) % 6]
+    if mode == "different-dims":
+        return case_chordal_dims(ctx, rng, m, real, kind)
+    if mode in ("generic", "unit-columns"):
         B, kb = num.controlled_matrix(rng, m, k, 1e3, real, kind, 10.0 ** rng.uniform(-2, 2))
+        if mode == "unit-columns":
+            # bases as precoders are usually stored: unit-norm (not orthogonal) columns
+            A = A / np.linalg.norm(A, axis=0)
+            B = B / np.linalg.norm(B, axis=0)
+            if rng.random() < 0.5:
+                T, kt = num.controlled_matrix(rng, k, k, 1e2, real)
+                B = A @ T
+                B = B / np.linalg.norm(B, axis=0)          # the same subspace
+                kb = ka * kt
+                mode = "unit-columns-same-subspace"
     elif mode == "same-basis-change":
         T, kt = num.controlled_matrix(rng, k, k, 1e2, real)
         B, kb = A @ T, ka * kt
@@ -142,7 +155,7 @@ def case_chordal(ctx, rng, idx):
     ctx.within("chordal-symmetric", abs(MT.calc_chordal_distance_2(B, A) - d2), tol, "proj", d)
     d3r = MT.calc_chordal_distance_from_principal_angles(MT.calc_principal_angles(B, A))
     ctx.within("chordal-symmetric", abs(d3r - d3), tol_ang, "angles", d)
-    if mode == "same-basis-change":
+    if mode in ("same-basis-change", "unit-columns-same-subspace"):
         ctx.within("chordal-zero-same-subspace", d1, tol, "qr", d)
         ctx.within("chordal-zero-same-subspace", d2, tol, "proj", d)
         ctx.within("chordal-zero-same-subspace", d3, tol_ang, "angles", d)
@@ -163,6 +176,35 @@ def case_chordal(ctx, rng, idx):
     ctx.sig("chordal", m, k, real, kind, mode)
     ctx.sample("chordal:" + mode, {"shape": [m, k], "mode": mode, "d": [d1, d2, d3],
                                    "d_ref": dref})
+
+
+def case_chordal_dims(ctx, rng, m, real, kind):
+    """Subspaces of different dimensions: the distance between the projectors
+    is still defined; both routines must agree with it and be symmetric."""
+    if m < 3:
+        m = 3
+    k1 = int(rng.integers(1, m - 1))
+    k2 = int(rng.integers(k1 + 1, m))
+    A, ka = num.controlled_matrix(rng, m, k1, 1e3, real, kind, 10.0 ** rng.uniform(-2, 2))
+    B, kb = num.controlled_matrix(rng, m, k2, 1e3, real, kind, 10.0 ** rng.uniform(-2, 2))
+    if rng.random() < 0.5:
+        A, B, ka, kb = B, A, kb, ka
+    kap = max(ka, kb)
+    tol = 64 * EPS * m * kap ** 2
+    d = lambda: {"A": A, "B": B, "mode": "different-dims", "kappa": kap}
+    UA, UB = ortho_basis(A), ortho_basis(B)
+    dref = fro(UA @ herm(UA) - UB @ herm(UB)) / math.sqrt(2)
+    ok1, d1 = ctx.call("chordal-agree", MT.calc_chordal_distance, A, B, detail=d)
+    ok2, d2 = ctx.call("chordal-agree", MT.calc_chordal_distance_2, A, B, detail=d)
+    if not (ok1 and ok2):
+        return
+    ctx.within("chordal-agree", abs(d1 - dref), tol, "qr-vs-reference:different-dims", d)
+    ctx.within("chordal-agree", abs(d2 - dref), tol, "projection-vs-reference:different-dims", d)
+    ctx.within("chordal-symmetric", abs(MT.calc_chordal_distance(B, A) - d1), tol,
+               "qr:different-dims", d)
+    ctx.within("chordal-symmetric", abs(MT.calc_chordal_distance_2(B, A) - d2), tol,
+               "proj:different-dims", d)
+    ctx.sig("chordal", m, (A.shape[1], B.shape[1]), real, kind, "different-dims")
 
 
 def case_gmd(ctx, rng, idx):
@@ -197,7 +239,7 @@ def case_gmd(ctx, rng, idx):
     ctx.sample("gmd", {"shape": [m, n], "kappa": kappa, "diag": np.diagonal(R)[:p]})
 
 
-def herm_pd(rng, n, real, kappa_max=1e4, min_gap=1e-3):
+def herm_pd(rng, n, real, kappa_max=1e4, min_gap=1e-3, symmetrise=True):
     """Hermitian positive definite with eigenvalues separated by a relative
     gap >= min_gap (np.linalg.eig based kernels need distinct eigenvalues for
     orthogonal eigenvectors)."""
@@ -212,7 +254,8 @@ def herm_pd(rng, n, real, kappa_max=1e4, min_gap=1e-3):
     lam = lam * 10.0 ** rng.uniform(-2, 2)
     U = num.rand_unitary(rng, n, real)
     C = (U * lam) @ herm(U)
-    C = (C + herm(C)) / 2
+    if symmetrise:
+        C = (C + herm(C)) / 2        # else: Hermitian only up to rounding, as a computed
     gap = float(np.min(lam[:-1] / lam[1:]) - 1) if n > 1 else 1.0
     return C, lam, float(lam[0] / lam[-1]), gap
 
@@ -220,8 +263,9 @@ def herm_pd(rng, n, real, kappa_max=1e4, min_gap=1e-3):
 def case_eig(ctx, rng, idx):
     n = int(rng.integers(1, 9))
     real = bool(idx % 2)
-    C, lam, kappa, gap = herm_pd(rng, n, real, 1e6)
-    d = lambda: {"C": C, "eigenvalues": lam, "kappa": kappa}
+    C, lam, kappa, gap = herm_pd(rng, n, real, 1e6, symmetrise=(idx // 2) % 3 != 0)
+    d = lambda: {"C": C, "eigenvalues": lam, "kappa": kappa,
+                 "exactly_hermitian": bool(np.array_equal(C, herm(C)))}
     tol = 256 * EPS * n * kappa / min(gap, 1.0)
     # whitening
     ok, W = ctx.call("whitening", MISC.calc_whitening_matrix, C, detail=d)
